@@ -122,6 +122,23 @@ static void c07_chunk(sup::Ctx& ctx, sup::Rng& r, long n) {
     if (ps) fmt = r.chance(0.5) ? "%s" : "@%s " + O;
     ZoneRec& pz = zone(r.next());
     if (!pz.ok) continue;
+    // sometimes the same format is used twice in a row, the second time for a sibling instant with the same month, day
+    // and time of day one to six years away (nothing remembered from one call may show in the next)
+    const int nsib = r.chance(0.1) ? 2 : 1;
+    for (int sib = 0; sib < nsib; ++sib) {
+    if (sib == 1) {
+      if (al.cs.month() == 2 && al.cs.day() == 29) break;
+      i128 dy = (i128)r.range(1, 6) * (r.chance(0.5) ? 1 : -1);
+      i128 y0 = al.cs.year();
+      if ((di == 9 && (y0 + dy < -999 || y0 + dy > 9999)) || (di >= 13 && (y0 + dy < 1 || y0 + dy > 9999))) break;
+      i128 shift = (orc::days_from_civil(y0 + dy, al.cs.month(), al.cs.day()) - orc::days_from_civil(y0, al.cs.month(), al.cs.day())) * 86400;
+      if (!orc::fits64((i128)u + shift)) break;
+      u = static_cast<int64_t>((i128)u + shift);
+      al = z.tz.lookup(mk(u));
+      if (oi >= 3 && al.offset % 60 != 0) break;  // the minute-granular offset forms would lose the seconds
+      if ((di == 9 && (al.cs.year() < -999 || al.cs.year() > 9999)) || (di >= 13 && (al.cs.year() < 1 || al.cs.year() > 9999))) break;
+      ctx.stat("C07.sibling_calls");
+    }
     ctx.set_case("class=%s op=format-parse zone=%s/%s t=%" PRId64 " f=%" PRId64 " fmt=%s parse-zone=%s/%s", z.cls.c_str(), z.cls.c_str(), z.name.c_str(), u, f,
                  fmt.c_str(), pz.cls.c_str(), pz.name.c_str());
     std::string s = cctz::detail::format(fmt, mk(u), cctz::detail::femtoseconds(f), z.tz);
@@ -138,20 +155,80 @@ static void c07_chunk(sup::Ctx& ctx, sup::Rng& r, long n) {
     if (((di >= 5 && di <= 8) || di >= 13) && !ps) ctx.stat("C07.week_number_dates");
     ctx.distinct_local.insert(sup::mix(sup::mix(sup::fnvs(fmt), (uint64_t)u), (uint64_t)f));
     if (!good) {
-      std::string key = a >= 86400 ? "zone-offset-magnitude-24h:parse-rejects-own-output" : std::string("roundtrip:") + (ok ? "different-instant" : "rejected") + ":" + z.cls;
+      std::string key = a >= 86400 ? "zone-offset-magnitude-24h:parse-rejects-own-output"
+                                   : std::string("roundtrip:") + (ok ? "different-instant" : "rejected") + ":" + z.cls + (sib ? ":sibling-call" : "");
       std::ostringstream d;
       d << "zone=" << z.cls << "/" << z.name << " t=" << u << " f=" << f << " fmt='" << fmt << "' text='" << s << "' parse-zone=" << pz.cls << "/" << pz.name
         << " ok=" << ok << " got=" << (ok ? un(tp) : 0) << " fs=" << (ok ? fs.count() : 0);
       ctx.viol("C07", key, d.str());
-    } else if (i == 7) {
+    } else if (i == 7 && sib == 0) {
       ctx.sample("C07", "zone=" + z.cls + "/" + z.name + " t=" + std::to_string(u) + " f=" + std::to_string(f) + " fmt='" + fmt + "' -> '" + s + "' -> parsed back in " +
                             pz.cls + "/" + pz.name + " exactly");
     }
+    }  // sibling loop
   }
   ctx.stat("C07.distinct_nontrivial", ctx.distinct_local.size());
 }
 
 // ---------------------------------------------------------------------------- C08
+// One generated format = a list of tokens, so that the expectation can be rendered for more than one instant.
+struct C08Tok {
+  int kind;  // 0 literal, 1 library token, 2 %E<n>S/f, 3 strftime-delegated token, 4 delegated zone-ish token
+  std::string text;
+  int id = 0, nd = 0;
+  bool withS = false, ydep = false;
+};
+// strftime tokens whose output depends on tm_isdst (and on tm_zone/tm_gmtoff, which the library leaves unset):
+// accepted renderings are strftime on the reported fields with tm_zone/tm_gmtoff unset, or set from the fields
+static const char* const kZoneish[] = {"%EZ", "%OZ", "%^Z", "%#Z", "%Oz"};
+static std::string render_zoneish(const char* tok, const fm::Fields& F, bool filled) {
+  std::tm t = F.tm();
+  if (filled) {
+    t.tm_gmtoff = F.offset;
+    t.tm_zone = F.abbr.c_str();
+  }
+  char buf[1024];
+  size_t n = strftime(buf, sizeof buf, tok, &t);
+  return std::string(buf, n);
+}
+// returns false if the format is outside the generator's domain for these fields (16x cap, year does not fit tm)
+static bool c08_render(const std::vector<C08Tok>& toks, const fm::Fields& F, bool filled, std::string* exp) {
+  std::string run_fmt, run_exp;
+  bool capped = false;
+  auto flush_run = [&]() {
+    if (!run_fmt.empty() && run_exp.size() >= run_fmt.size() * 16) capped = true;
+    run_fmt.clear();
+    run_exp.clear();
+  };
+  exp->clear();
+  for (const C08Tok& t : toks) {
+    switch (t.kind) {
+      case 0:
+        *exp += t.text;
+        run_fmt += t.text;
+        run_exp += t.text;
+        break;
+      case 1:
+        *exp += fm::render_lib(t.id, F);
+        flush_run();
+        break;
+      case 2:
+        *exp += fm::render_frac(t.nd, t.withS, F);
+        flush_run();
+        break;
+      default: {
+        if (t.ydep && !F.year_fits_tm()) return false;
+        std::string e = t.kind == 3 ? fm::render_sys(t.text.c_str(), F) : render_zoneish(t.text.c_str(), F, filled);
+        *exp += e;
+        run_fmt += t.text;
+        run_exp += e;
+        break;
+      }
+    }
+  }
+  flush_run();
+  return !capped;
+}
 static void c08_wellformed(sup::Ctx& ctx, sup::Rng& r, long n) {
   for (long i = 0; i < n; ++i) {
     ZoneRec& z = zone(r.next());
@@ -161,76 +238,94 @@ static void c08_wellformed(sup::Ctx& ctx, sup::Rng& r, long n) {
     fm::Fields F = fields_of(z.tz, u, f);
     // the monitor checks lookup() against O-ZONE elsewhere (C01); here text vs what lookup reports
     int ntok = (int)r.range(1, 12);
-    std::string fmt, exp;
-    bool capped = false;
-    std::string run_fmt, run_exp;  // current strftime-delegated run (literals + sys tokens), for the 16x cap
-    auto flush_run = [&]() {
-      if (!run_fmt.empty() && run_exp.size() >= run_fmt.size() * 16) capped = true;
-      run_fmt.clear();
-      run_exp.clear();
-    };
+    std::vector<C08Tok> toks;
+    // formats without delegated tokens may carry any byte, NUL included, in their literal text (the format is a
+    // std::string); in runs handed to strftime a NUL would end the C string, so those stay NUL-free
+    const bool nosys = r.chance(0.12);
     for (int k = 0; k < ntok; ++k) {
       int c = (int)r.range(0, 9);
+      C08Tok t;
       if (c < 2) {
         int len = (int)r.range(1, 4);
-        std::string lit;
+        t.kind = 0;
         for (int j = 0; j < len; ++j) {
           char ch;
           do {
-            ch = r.chance(0.6) ? " -:/TZabc.,0123456789EO*"[r.range(0, 23)] : static_cast<char>(r.range(1, 255));
-          } while (ch == '%' || ch == 0);
-          lit += ch;
+            ch = r.chance(0.6) ? " -:/TZabc.,0123456789EO*"[r.range(0, 23)] : static_cast<char>(r.range(nosys ? 0 : 1, 255));
+          } while (ch == '%');
+          t.text += ch;
         }
-        fmt += lit;
-        exp += lit;
-        run_fmt += lit;
-        run_exp += lit;
-      } else if (c < 7) {
+      } else if (c < 7 || nosys) {
         int li = (int)r.range(0, fm::kNumLibToks + 1);
         if (li < fm::kNumLibToks) {
-          fmt += fm::kLibToks[li].text;
-          exp += fm::render_lib(fm::kLibToks[li].id, F);
+          t.kind = 1;
+          t.text = fm::kLibToks[li].text;
+          t.id = fm::kLibToks[li].id;
         } else {
-          int nd = r.chance(0.3) ? (int)r.range(0, 30) : (int)r.range(0, 18);
-          if (r.chance(0.03)) nd = (int)r.range(1000, 1024);
-          bool withS = li == fm::kNumLibToks;
-          std::string digits = std::to_string(nd);
+          t.kind = 2;
+          t.nd = r.chance(0.3) ? (int)r.range(0, 30) : (int)r.range(0, 18);
+          if (r.chance(0.03)) t.nd = (int)r.range(1000, 1024);
+          t.withS = li == fm::kNumLibToks;
+          std::string digits = std::to_string(t.nd);
           if (r.chance(0.15)) digits.insert(0, static_cast<size_t>(r.range(1, 6)), '0');  // any spelling of the count
-          fmt += "%E" + digits + (withS ? "S" : "f");
-          exp += fm::render_frac(nd, withS, F);
+          t.text = "%E" + digits + (t.withS ? "S" : "f");
         }
-        flush_run();
+      } else if (r.chance(0.06)) {
+        t.kind = 4;
+        t.text = kZoneish[r.range(0, 4)];
       } else {
-        const fm::SysTok* t;
+        const fm::SysTok* st;
         do {
-          t = &fm::kSysToks[r.range(0, fm::kNumSysToks - 1)];
-        } while (t->ydep && !F.year_fits_tm());
-        std::string e = fm::render_sys(t->text, F);
-        fmt += t->text;
-        exp += e;
-        run_fmt += t->text;
-        run_exp += e;
+          st = &fm::kSysToks[r.range(0, fm::kNumSysToks - 1)];
+        } while (st->ydep && !F.year_fits_tm());
+        t.kind = 3;
+        t.text = st->text;
+        t.ydep = st->ydep;
       }
+      toks.push_back(t);
     }
-    flush_run();
-    if (capped) {
-      ctx.stat("C08.skipped_over_16x_cap");
-      continue;
+    std::string fmt;
+    bool zoneish = false;
+    for (auto& t : toks) {
+      fmt += t.text;
+      zoneish = zoneish || t.kind == 4;
     }
-    ctx.set_case("class=wellformed op=format zone=%s/%s t=%" PRId64 " f=%" PRId64 " fmt-hex=%s", z.cls.c_str(), z.name.c_str(), u, f, sup::hexs(fmt).c_str());
-    std::string got = cctz::detail::format(fmt, mk(u), cctz::detail::femtoseconds(f), z.tz);
-    ctx.stat("C08.evaluations");
-    ctx.stat("C08.wellformed");
-    ctx.distinct_local.insert(sup::mix(sup::mix(sup::fnvs(fmt), (uint64_t)u), (uint64_t)f));
-    if (got != exp) {
-      // which token class differs first: keep the key coarse but informative
-      size_t p = 0;
-      while (p < got.size() && p < exp.size() && got[p] == exp[p]) ++p;
-      std::ostringstream d;
-      d << "zone=" << z.cls << "/" << z.name << " t=" << u << " f=" << f << " fmt='" << fmt << "' expected='" << exp << "' got='" << got << "' first difference at " << p;
-      ctx.viol("C08", "render-mismatch", d.str());
-    } else if (i == 3) {
-      ctx.sample("C08", "zone=" + z.cls + "/" + z.name + " t=" + std::to_string(u) + " f=" + std::to_string(f) + " fmt='" + fmt + "' -> '" + got + "' (= concatenation of per-token expectations)");
+    // the same format is rendered for the drawn instant and, sometimes, straight afterwards for a sibling instant that
+    // shares month, day and time of day but lies one to six years away (anything remembered between calls must not leak)
+    int nsib = r.chance(0.12) ? 2 : 1;
+    for (int sib = 0; sib < nsib; ++sib) {
+      if (sib == 1) {
+        i128 dy = (i128)r.range(1, 6) * (r.chance(0.5) ? 1 : -1);
+        if (F.cs.m == 2 && F.cs.d == 29) break;
+        i128 shift = (orc::days_from_civil(F.cs.y + dy, F.cs.m, F.cs.d) - orc::days_from_civil(F.cs.y, F.cs.m, F.cs.d)) * 86400;
+        if (!orc::fits64((i128)u + shift)) break;
+        u = static_cast<int64_t>((i128)u + shift);
+        F = fields_of(z.tz, u, f);
+        ctx.stat("C08.sibling_instants");
+      }
+      std::string exp, exp2;
+      if (!c08_render(toks, F, false, &exp)) {
+        ctx.stat("C08.skipped_over_16x_cap");
+        continue;
+      }
+      if (zoneish) c08_render(toks, F, true, &exp2);
+      ctx.set_case("class=wellformed op=format zone=%s/%s t=%" PRId64 " f=%" PRId64 " fmt-hex=%s", z.cls.c_str(), z.name.c_str(), u, f, sup::hexs(fmt).c_str());
+      std::string got = cctz::detail::format(fmt, mk(u), cctz::detail::femtoseconds(f), z.tz);
+      ctx.stat("C08.evaluations");
+      ctx.stat("C08.wellformed");
+      if (zoneish) ctx.stat("C08.formats_with_isdst_dependent_strftime_tokens");
+      if (nosys && fmt.find('\0') != std::string::npos) ctx.stat("C08.formats_with_nul_in_literal_text");
+      ctx.distinct_local.insert(sup::mix(sup::mix(sup::fnvs(fmt), (uint64_t)u), (uint64_t)f));
+      if (got != exp && !(zoneish && got == exp2)) {
+        size_t p = 0;
+        while (p < got.size() && p < exp.size() && got[p] == exp[p]) ++p;
+        std::ostringstream d;
+        d << "zone=" << z.cls << "/" << z.name << " t=" << u << " f=" << f << " fmt='" << fmt << "' expected='" << exp << "' got='" << got << "' first difference at " << p
+          << (sib ? " (second of two consecutive calls with the same format)" : "");
+        ctx.viol("C08", sib ? "render-mismatch:sibling-call" : "render-mismatch", d.str());
+      } else if (i == 3 && sib == 0) {
+        ctx.sample("C08", "zone=" + z.cls + "/" + z.name + " t=" + std::to_string(u) + " f=" + std::to_string(f) + " fmt='" + fmt + "' -> '" + got + "' (= concatenation of per-token expectations)");
+      }
     }
   }
 }
@@ -722,7 +817,8 @@ struct DurMon {
 
 int main(int argc, char** argv) {
   sup::Args a(argc, argv);
-  setenv("TZ", "UTC", 1);
+  // C08 runs with a process zone whose standard and daylight names differ (set by the check), everything else in UTC
+  if (a.get("prop", "") != "C08" || getenv("TZ") == nullptr) setenv("TZ", "UTC", 1);
   std::string st = orc::selftest_calendar();
   if (!st.empty()) {
     fprintf(stderr, "oracle self-test failed: %s\n", st.c_str());
